@@ -35,4 +35,16 @@ def driverParseMsg (timeOk : Str → Bool) (s : Str) : DriverParse :=
   | .malformed => .none
   | .crash e => .crash e
 
+/-- `IrcMsg(msg=m, prefix=…, command=…, args=…)` — the copy constructor: every field given (truthy)
+overrides, the others and the server tags are taken from `m`; no argument validation happens on
+this path and no cached string is carried over. -/
+def copyCtor (m : Msg) (pfx cmd : Str) (args : List Str) : Msg :=
+  { pfx := if pfx = [] then m.pfx else pfx,
+    command := if cmd = [] then m.command else cmd,
+    args := if args = [] then m.args else args,
+    tags := m.tags }
+
+/-- pickling: `__reduce__` is `(IrcMsg, (str(self),))`, so unpickling re-parses the serialisation -/
+def unpickle (timeOk : Str → Bool) (m : Msg) : ParseResult := parse timeOk (format m)
+
 end C05
